@@ -1,5 +1,6 @@
 """C10 — mode-summed tidal heating and torques are consistent (formula level)."""
 from __future__ import annotations
+import math
 import ast
 from fractions import Fraction as F
 from math import factorial
@@ -440,6 +441,33 @@ def entry_point(chk, repo):
         chk.ob('R10.9', f'quick_tidal_dissipation ({lab}): returned tidal_heating == host_mass (n dUdM - spin dUdO) of the returned potential derivatives, with the spin rate the caller gave '
                '(on every outcome of tolerance tests made on the inputs)', ok,
                '' if ok else bad[0], where, key=f'R10.9|identity|{lab}', method='whole-function interpretation (paths through data-dependent predicates enumerated) + GF(p^2) PIT')
+    # (b') non-negative for passive rheologies incl. CPL / CTL with the lag or quality factor the entry point derives itself when none is given: the returned heating evaluated over
+    #      spin / n in [-3, 3] (sub- and super-synchronous, retrograde, non-rotating) at concrete values of the other inputs (float evaluation of the extracted expression)
+    it.array_mode = False
+    for kw, lab in ((dict(spin_frequency=spin, rheology='ctl', fixed_k2=X.atom('k2_fixed', 'pos'), fixed_q=X.atom('Q', 'pos')), 'CTL, time lag derived from Q'),
+                    (dict(spin_frequency=spin, rheology='cpl', fixed_k2=X.atom('k2_fixed', 'pos'), fixed_q=X.atom('Q', 'pos')), 'CPL'),
+                    (dict(spin_frequency=spin, obliquity=I_, rheology='ctl', fixed_k2=X.atom('k2_fixed', 'pos'), fixed_q=X.atom('Q', 'pos'), use_obliquity=True), 'CTL, time lag derived from Q, obliquity tides')):
+        args = dict(base); args.update(kw)
+
+        def one(fork, args=args):
+            it.hooks['fork'] = fork
+            try:
+                return it.call(mq, f, [], dict(args))
+            finally:
+                it.hooks.pop('fork', None)
+        bad = []
+        for trace, out in PathExplorer(max_paths=16).run(one):
+            if any(PathExplorer.arm(v_, o_)[0] == 'equality' for (v_, _w, _t, o_) in trace):
+                continue
+            h_ = X.lift(getattr(out['tidal_heating'], 'v', out['tidal_heating']))
+            for k_, ratio in enumerate((-3.0, -1.0, 0.0, 0.5, 0.99, 1.5, 3.0)):
+                n0 = 4.0e-5
+                env = {n.val[0]: n0, spin.val[0]: ratio * n0, 'e': 0.1, 'I': 0.3, 'Q': 100.0, 'k2_fixed': 0.3, 'pi': math.pi}
+                v_ = X.float_eval(h_, env, seed=chk.seed + k_)
+                if v_ != v_ or v_.real < -1e-9 * abs(v_):
+                    bad.append(f'spin / n = {ratio:g}: heating = {v_.real:.4g}' + PathExplorer.label(trace))
+        chk.ob('R10.8', f'quick_tidal_dissipation ({lab}): the returned heating is non-negative for spin / n in [-3, 3] (the lag the entry point derives for itself is a passive one)', not bad,
+               '; '.join(bad[:3]), where, key=f'R10.8|entry|{lab}', method='whole-function interpretation + float evaluation of the extracted heating over a grid of spin states')
     # (c) the limit values the property names, passed as exact numbers with array inputs: what the entry point returns there is what the generic result gives at that value
     #     (special cases taken on exact zeros, modes dropped or buffers shared when a coefficient vanishes), and the circular, zero-obliquity, synchronous call returns zeros
     from ..core.interp import PathExplorer
